@@ -372,6 +372,19 @@ def expr(fn, o, depth=14, transparent=TRANSPARENT):
         k = o["k"]
         if "v" in k:
             return ("const", k["v"])
+        if "str" in k:
+            return ("const", '"%s"' % k["str"])
+        if k.get("promoted") is not None:
+            named = [d for d in (k.get("pdefs") or []) if not d.startswith(("variant:", "lit:"))]
+            lits = [d for d in (k.get("pdefs") or []) if d.startswith("lit:")]
+            if len(named) == 1 and not lits:
+                return ("const", named[0].rsplit("::", 1)[-1])
+            if not named and len(lits) == 1:
+                try:
+                    return ("const", int(lits[0][4:]))
+                except ValueError:
+                    pass
+            return ("const", "promoted{%s}" % ",".join(sorted(d.rsplit("::", 1)[-1] for d in named + lits)))
         nm = k.get("def") or k.get("static") or k.get("param") or (k.get("pdefs") or ["?"])[0]
         return ("const", nm.rsplit("::", 1)[-1] if isinstance(nm, str) else nm)
     p = op_place(o)
